@@ -732,7 +732,7 @@ def walls_ambiguous(case, base):
 
 def signature(case):
     ks = sorted(set(c["kind"] for v in case["vars"] for c in v["cvcs"])) if "vars" in case else [case.get("name", "raw")]
-    return "fd:" + "+".join(ks)
+    return "fd:" + ":".join(ks)
 
 
 def shrink_fd(vsim, case, run_one):
@@ -934,7 +934,7 @@ def untuple(c):
 
 def compare_case(run, case, res, mline, mout):
     """tie: implementation vs model on the base step"""
-    comp = "tie:" + "+".join(sorted(set(c["kind"] for v in case["vars"] for c in v["cvcs"])))
+    comp = ":".join(sorted(set(c["kind"] for v in case["vars"] for c in v["cvcs"])))
     if res is None or res.get("config") is None or "err=ok" not in res["config"]:
         run.mismatch(comp, {"config": config_text(case)}, res and res.get("config"), "the model accepts this configuration")
         return False
